@@ -199,6 +199,57 @@ var currentProp string
 // contractAlias: per-property redirection of a callee key to another contract (see PropConfig)
 var contractAlias = map[string]string{}
 
+// Proof groups.  A clause tagged `@g:NAME` belongs to group NAME: its obligations are proved with
+// every hypothesis, but as a hypothesis it is used only for obligations of the same group.  The
+// obligations of untagged clauses are thus proved without the tagged facts (sound: hypotheses are
+// only dropped), which keeps unrelated quantified invariants out of each other's queries.
+func clauseGroup(ps []string) string {
+	for _, p := range ps {
+		if strings.HasPrefix(p, "g:") {
+			return strings.TrimPrefix(p, "g:")
+		}
+	}
+	return ""
+}
+
+// propTags: the property tags of a clause (group tags removed).
+func propTags(ps []string) []string {
+	var out []string
+	for _, p := range ps {
+		if !strings.HasPrefix(p, "g:") {
+			out = append(out, p)
+		}
+	}
+	return out
+}
+
+var grpCounter int
+
+// inGroup marks a hypothesis as belonging to a proof group (an SMT :named annotation carries it).
+func inGroup(t Term, g string) Term {
+	if g == "" || t.IsTrue() {
+		return t
+	}
+	grpCounter++
+	return Term{S: fmt.Sprintf("(! %s :named grp_%s_%d)", t.S, sanitize(g), grpCounter), Sort: SBool}
+}
+
+// hypGroup: the proof group of a hypothesis ("" if none).
+func hypGroup(s string) string {
+	if !strings.HasPrefix(s, "(! ") {
+		return ""
+	}
+	i := strings.LastIndex(s, ":named grp_")
+	if i < 0 {
+		return ""
+	}
+	rest := strings.TrimSuffix(s[i+len(":named grp_"):], ")")
+	if j := strings.LastIndex(rest, "_"); j > 0 {
+		return rest[:j]
+	}
+	return ""
+}
+
 func hasProp(ps []string, id string) bool {
 	for _, p := range ps {
 		if p == id {
